@@ -15,7 +15,7 @@ def scenario(n, single, slice_, lazy=(), wrap=None, fail=None, self_opt=None, sl
                 order=list(order or range(1, n + 1)), regOrder=list(reg_order or range(1, n + 1)),
                 lookups=list(lookups), seed=seed, sparse=sparse, procs=list(procs), mode=list(mode or ["normal"] * n), quiet=quiet, runners=sorted(runners),
                 rorder=[x for x in (order or range(1, n + 1)) if x in set(runners)], all=all_,
-                ilook=list(ilook or [0] * n), extra=False, plainRig=False, late=[False] * n, prewire=[[] for _ in range(n)])      # ilook[n-1] = t: the component's Init() looks component t up by name
+                ilook=list(ilook or [0] * n), extra=False, plainRig=False, late=[False] * n, prewire=[[] for _ in range(n)], once=[False] * n)      # ilook[n-1] = t: the component's Init() looks component t up by name
 
 
 def rand_scenario(rng, n, p_edge=0.35, p_slice=0.3, wraps=False, fails=False, lazies=False, lookups=0,
